@@ -148,6 +148,7 @@ def let(
         _domain_source_=domain_source,
         _name__=name,
     )
+    result._ranges_over_all_instances_ = domain is None and issubclass(type_, Symbol)
 
     return result
 
